@@ -1071,6 +1071,12 @@ def isBinaryFmt {V : Type} : Sch V → Bool
   | .ref _ _ => false
   | .node h _ => h.fmt == some "binary"
 
+/-- the key of `doc2.Parameters` under which FromV3 stores what comes back from a component request body -/
+def backKey {V : Type} (k : String) (p : PRef2 V) : String × PRef2 V :=
+  match p with
+  | .val q => if q.loc = "formData" then (q.name, p) else (k, p)
+  | _ => (k, p)
+
 /-- FromV3 (`none` = panic) -/
 def fromV3 {V : Type} (d : Doc3 V) : Option (Doc2 V) :=
   let bin := (d.cschemas.filter (fun (_, c) => isBinaryFmt c.schema)).map (·.1)
@@ -1083,10 +1089,7 @@ def fromV3 {V : Type} (d : Doc3 V) : Option (Doc2 V) :=
       params := dedupLast (
         (d.cschemas.filter (fun (_, c) => isBinary c.schema)).map (fun (k, c) => (k, fromV3FileParam k c)) ++
         cps ++
-        d.cbodies.flatMap (fun (k, b) => (fromV3Body bin true k b).map (fun p =>
-          match p with
-          | .val q => if q.loc = "formData" then (q.name, p) else (k, p)
-          | _ => (k, p)))),
+        d.cbodies.flatMap (fun kb => (fromV3Body bin true kb.1 kb.2).map (backKey kb.1))),
       responses := crs,
       defs := (d.cschemas.filter (fun (_, c) => !isBinary c.schema)).filterMap (fun (k, c) => (fromV3SO bin c.schema).map (fun s => (k, s))),
       secs := d.secs.filterMap (fun (k, s) => match fromV3Sec s with | .ok t => some (k, t) | _ => none),
@@ -1305,5 +1308,119 @@ def docSimpleBack {V : Type} (d : Doc2 V) : Bool :=
   nodupKeys d.defs && d.defs.all (fun ks => defSimpleBack ks.2) &&
   d.secs.all (fun ks => secInFragment ks.2) &&
   (d.loc.host != "" && d.loc.schemes.all (fun x => x == "http" || x == "https"))
+
+/-! ## §8 the fragment with body parameters (inline and shared) -/
+
+def isBodyVal {V : Type} : PRef2 V → Bool
+  | .ref _ _ => false
+  | .val p => p.loc == "body"
+
+/-- the keys of the shared parameters that are body parameters -/
+def bodyKeys {V : Type} : List (String × PRef2 V) → List String
+  | [] => []
+  | (k, p) :: r => if isBodyVal p then k :: bodyKeys r else bodyKeys r
+
+/-- an inline body parameter of the fragment: its schema is inside the fragment of `toV3S_preserves_partial`, and the
+    media types it is consumed under are not form media types (a body under a form media type is read as form
+    fields by `bodyA3`) -/
+def bodyOK3 {V : Type} (cs : List String) : PRef2 V → Bool
+  | .ref _ _ => false
+  | .val p => p.loc == "body" && schemaOK3 p.schema && (p.schema.isNone || !cs.any isFormMime)
+
+/-- a request input of an operation of the fragment: a query / header / path parameter (inline or by reference)
+    or a body parameter (inline, or a reference to a shared body parameter — `paramSimple` admits every v2 reference) -/
+def inputOK3 {V : Type} (cs : List String) (q : PRef2 V) : Bool := paramSimple q || bodyOK3 cs q
+
+/-- does this parameter end up as the request body? (`bks` = keys of the shared body parameters) -/
+def isBodyIn {V : Type} (bks : List String) : PRef2 V → Bool
+  | .ref k n => k == RK.par2 && bks.contains n
+  | .val p => p.loc == "body"
+
+def effConsumes {V : Type} (dc : List String) (o : Op2 V) : List String := if o.consumes.isEmpty then dc else o.consumes
+
+def opBodyOK {V : Type} (bks dc : List String) (o : Op2 V) : Bool :=
+  o.params.all (inputOK3 (effConsumes dc o)) && decide ((o.params.filter (isBodyIn bks)).length ≤ 1) &&
+  o.responses.all (fun kr => respOK3 kr.2)
+
+/-- path-level parameters: no reference to a shared body parameter (ToV3PathItem fails on it) -/
+def pathParamOK {V : Type} (bks : List String) (q : PRef2 V) : Bool := paramSimple q && !isBodyIn bks q
+
+def pathBodyOK {V : Type} (bks dc : List String) (p : Path2 V) : Bool :=
+  p.params.all (pathParamOK bks) && p.ops.all (opBodyOK bks dc)
+
+/-- a shared parameter of the fragment: query / header / path or body -/
+def sharedOK3 {V : Type} (dc : List String) (q : PRef2 V) : Bool := sharedSimple q || bodyOK3 dc q
+
+/-- documents whose operations take query / header / path parameters and at most one body parameter, inline or by
+    reference to a shared parameter (shared parameters: query / header / path / body) -/
+def docBody {V : Type} (d : Doc2 V) : Bool :=
+  d.params.all (fun kp => sharedOK3 d.consumes kp.2) && d.paths.all (pathBodyOK (bodyKeys d.params) d.consumes) &&
+  d.responses.all (fun kr => respOK3 kr.2) &&
+  nodupKeys d.defs && d.defs.all (fun ks => !addlImpure ks.2 && v2Refs ks.2) &&
+  d.secs.all (fun ks => secInFragment ks.2) && locOK d.loc
+
+/-- the v3 request body ToV3Parameter builds from an inline body parameter -/
+def toV3BodyS {V : Type} (cs : List String) (p : Param2 V) : BRef3 V :=
+  .val { required := p.required,
+         mimes := match p.schema with
+           | none => []
+           | some _ => if cs.isEmpty then ["*/*"] else cs,
+         schema := p.schema.map toV3S }
+
+/-- two lists related position by position -/
+def rel2 {α β : Type} (R : α → β → Prop) : List α → List β → Prop
+  | [], [] => True
+  | a :: as, b :: bs => R a b ∧ rel2 R as bs
+  | _, _ => False
+
+/-- the same API up to the order of the request inputs of an operation -/
+def OpA.sim {V : Type} (a b : OpA V) : Prop :=
+  a.path = b.path ∧ a.method = b.method ∧ a.opId = b.opId ∧ a.inputs.Perm b.inputs ∧ a.responses = b.responses ∧
+  a.info = b.info ∧ a.security = b.security
+
+/-- the same API up to the order of the request inputs of each operation and of the shared parameters -/
+def Api.sim {V : Type} (a b : Api V) : Prop :=
+  rel2 OpA.sim a.ops b.ops ∧ a.pathParams = b.pathParams ∧ a.shared.Perm b.shared ∧
+  a.sharedResponses = b.sharedResponses ∧ a.defs = b.defs ∧ a.servers = b.servers ∧ a.security = b.security ∧
+  a.securityReq = b.securityReq
+
+/-- the round-trip fragment with bodies, component by component (outside every exclusion class) -/
+def bodyOKBack {V : Type} (cs : List String) : PRef2 V → Bool
+  | .ref _ _ => false
+  | .val p => p.loc == "body" && !cs.any isFormMime &&
+      (match p.schema with | none => false | some s => v2Refs s && noBinary2 s && !addlImpure s)
+
+def inputOKBack {V : Type} (cs : List String) (q : PRef2 V) : Bool := paramSimpleBack q || bodyOKBack cs q
+
+def opBodyBack {V : Type} (bks dc : List String) (o : Op2 V) : Bool :=
+  o.params.all (inputOKBack (effConsumes dc o)) && decide ((o.params.filter (isBodyIn bks)).length ≤ 1) &&
+  o.responses.all (fun kr => respSimpleBack o.produces kr.2)
+
+def pathParamBack {V : Type} (bks : List String) (q : PRef2 V) : Bool := paramSimpleBack q && !isBodyIn bks q
+
+def pathBodyBack {V : Type} (bks dc : List String) (p : Path2 V) : Bool :=
+  p.params.all (pathParamBack bks) && p.ops.all (opBodyBack bks dc)
+
+/-- a shared body parameter comes back from one FromV3SchemaRef pass per media type over the same schema object
+    (F-C17-11): the fragment keeps to at most one media type -/
+def sharedOKBack {V : Type} (dc : List String) (q : PRef2 V) : Bool :=
+  sharedSimpleBack q || (bodyOKBack dc q && decide (dc.length ≤ 1))
+
+def docBodyBack {V : Type} (d : Doc2 V) : Bool :=
+  docBody d && d.params.all (fun kp => sharedOKBack d.consumes kp.2) && nodupKeys d.params &&
+  d.paths.all (pathBodyBack (bodyKeys d.params) d.consumes) &&
+  d.responses.all (fun kr => respSimpleBack d.produces kr.2) &&
+  d.defs.all (fun ks => defSimpleBack ks.2) &&
+  (d.loc.host != "" && d.loc.schemes.all (fun x => x == "http" || x == "https"))
+
+/-- what relates a converted path item to its source -/
+def PathRel3 {V : Type} (p3 : Path3 V) (p : Path2 V) : Prop :=
+  p3.path = p.path ∧ p3.params.map paramA3 = p.params.map inputA2 ∧
+  rel2 OpA.sim (p3.ops.map (opA3 p3.path)) (p.ops.map (opA2 p.path))
+
+/-- what relates a path item that came back to its source -/
+def PathRelBack {V : Type} (p2 p : Path2 V) : Prop :=
+  p2.path = p.path ∧ p2.params.map inputA2 = p.params.map inputA2 ∧
+  rel2 OpA.sim (p2.ops.map (opA2 p2.path)) (p.ops.map (opA2 p.path))
 
 end KinModel.Conv
